@@ -117,6 +117,8 @@ type Plan struct {
 	// SlowDial: the n-th dial of the run takes SlowMs of simulated time
 	SlowDial int `json:"slow_dial,omitempty"`
 	SlowMs   int `json:"slow_ms,omitempty"`
+	// UserSC: the caller's dial options carry a default service config of their own (1 pick_first, 2 another grpc_gcp pool configuration)
+	UserSC int `json:"user_sc,omitempty"`
 	// ManyEps: MultiEndpoints over up to 24 endpoints (updates that dial a dozen pools)
 	ManyEps bool `json:"many_eps,omitempty"`
 	// OwnerClose: before Close() the application closes some pool connections itself
@@ -180,6 +182,9 @@ func Generate(r *rand.Rand, profile string, concurrent bool, avoid map[string]bo
 	p.Shared = !p.Alias && r.IntN(4) == 0
 	p.OwnerClose = r.IntN(5) == 0
 	p.ManyEps = !concurrent && r.IntN(10) == 0
+	if r.IntN(3) == 0 {
+		p.UserSC = 1 + r.IntN(2)
+	}
 	if !concurrent && r.IntN(8) == 0 {
 		p.SlowDial, p.SlowMs = 1+r.IntN(8), []int{25000, 61000}[r.IntN(2)]
 	}
@@ -603,6 +608,14 @@ func (s *sim) dialConfig(dopts []grpc.DialOption, want *pb.ApiConfig, who string
 		}
 		return
 	}
+	if len(sc.LB) > 0 {
+		// a readable load-balancing list without a grpc_gcp entry
+		s.nDialCfgJudged++
+		if s.cfgBad == "" {
+			s.cfgBad = who + "a pool was dialled with the service config " + js + ", which does not select the grpc_gcp balancer: it cannot run with the channel-pool configuration this instance was given"
+		}
+		return
+	}
 	s.nDialCfgUnknown++
 }
 
@@ -632,6 +645,16 @@ func (s *sim) userDialOpts() []grpc.DialOption {
 	if s.userOpts == nil {
 		s.userOpts = make([]grpc.DialOption, 0, 8)
 		s.userOpts = append(s.userOpts, grpc.WithUserAgent("app"), grpc.WithAuthority("authority.example"))
+		switch s.plan.UserSC {
+		case 1:
+			// the application's own default service config (what its other channels
+			// use): the instance's configuration must still be what its pools run with
+			s.userOpts = append(s.userOpts, grpc.WithDefaultServiceConfig(`{"loadBalancingConfig": [{"pick_first":{}}]}`))
+			s.res.Count("fault:caller_dial_options_carry_a_service_config", 1)
+		case 2:
+			s.userOpts = append(s.userOpts, grpc.WithDefaultServiceConfig(`{"loadBalancingConfig": [{"grpc_gcp":{"channelPool":{"maxSize":9,"minSize":9}}}]}`))
+			s.res.Count("fault:caller_dial_options_carry_a_service_config", 1)
+		}
 	}
 	return s.userOpts
 }
